@@ -10,13 +10,16 @@ V: per curve (P-224/256/384/521) a structured sequence (every signing key x
    equalities, both verifiers = the specification's verdict, and every blinded
    key = the independent XMD hash-to-field / crypto/elliptic reference."""
 import vlib
+from checks import ages_common as ag
 from checks import keyblind_common as kc
 
 
 def run(ctx):
     ctx.prove("KeyBlindProofs")   # unbounded (TLAPS) versions of the model-level invariants TLC checks below
     n, cases, ops, nops = kc.run(ctx, "ecdsa", "MC_KeyBlind")
+    an, acases = ag.run(ctx, ['ecdsa'])   # Ages.tla: every schedule of phases on one long-lived object, each phase scaled to n operations
     return ctx.finish({
+        **ag.coverage(an, acases),
         "traces_validated_against_impl": len(cases),
         "events_validated": n,
         "evaluations": nops,
@@ -35,4 +38,6 @@ def run(ctx):
 
 
 def replay(ctx, path):
+    if vlib.json.load(open(path)).get("family") == "ages":
+        return ag.replay(ctx, path)
     return ctx.replay_case(path, "keyblind", "Trace_KeyBlind")
